@@ -1,6 +1,7 @@
-/- Driver ops for Cleaner.  Ops: cleaner.step, cleaner.state, cleaner.judge, cleaner.instance -/
+/- Driver ops for Cleaner.  Ops: cleaner.step, cleaner.state, cleaner.judge, cleaner.instance, cleaner.bounds -/
 import JumanjiModel.Bridge.Json
 import JumanjiModel.Env.Cleaner.Model
+import JumanjiModel.Env.Cleaner.Bounds
 import JumanjiModel.Env.Maze.MazeGen
 open Lean Jb
 
@@ -83,7 +84,13 @@ def opInstance : Op := fun j => do
               ("step_count_zero", jBool (decide (s.stepCount = 0))),
               ("consistent", jBool (decide (Consistent cfg s)))])
 
+/-- {cfg} → {leaf path: {"lo": rat|null, "hi": rat|null}}: the proved value bounds `obsBounds cfg` (C01) -/
+def opBounds : Op := fun j => do
+  let cfg ← getCfg (← field j "cfg")
+  let jo : Option Rat → Json := fun o => match o with | none => .null | some r => jRat r
+  pure (jObj ((obsBounds cfg).map (fun (k, lo, hi) => (k, jObj [("lo", jo lo), ("hi", jo hi)]))))
+
 def ops : List (String × Op) :=
-  [("cleaner.step", opStep), ("cleaner.state", opState), ("cleaner.judge", opJudge),
+  [("cleaner.bounds", opBounds), ("cleaner.step", opStep), ("cleaner.state", opState), ("cleaner.judge", opJudge),
    ("cleaner.instance", opInstance)]
 end Jb.Cleaner
